@@ -131,6 +131,15 @@ def run(tier, seed, replay=None):
         texts.append((rng.choice(DIALECTS), ''.join(rng.choice(pool) for _ in range(rng.randint(1, 25)))))
     rng.shuffle(texts_extra)
     texts += texts_extra[: (600 if tier == 'quick' else 6000)]
+    # texts without any token, and statements decorated with comments and blank lines in every position
+    layout = ['-- ping', '/* ping */', '/* header */ -- trailing\n;', '\n\n-- comment', '-- a\n-- b\n', '/**/', '/* a */ /* b */ ;', ' \t\n', ';', ';;',
+              '--', '-- \n;', '/* unterminated', '/* a */ select /* b */ 1 -- c', '-- c\nselect 1', 'select 1 -- c\n-- d', 'select /* x', "select '-- not a comment'",
+              'select 1 /* c */ ;', '#', '# c', '-- c\n#']
+    for d in DIALECTS:
+        texts += [(d, t) for t in layout]
+        for s_ in rng.sample(CORPUS, min(len(CORPUS), 20)):
+            k = rng.randrange(len(s_) + 1)
+            texts.append((d, s_[:k] + rng.choice([' /* c */ ', ' -- c\n', '\n\n', '/**/']) + s_[k:]))
     # sentences derived from each dialect's own grammar (every statement kind, every combination of optional clauses)
     import gramgen
     for d in DIALECTS:
